@@ -398,6 +398,7 @@ func exploreC13(t *testing.T, seed uint64, idx int, tier string, sink *Sink) {
 // into the prefix (post-edit): same operation count, same instants, same
 // per-run entropy.
 func execC13(t *testing.T, plan *Plan) *World {
+	defer noteWorld(plan)()
 	if plan.Meta["arm"] != "sensitivity" {
 		return Exec(t, plan, &c13Oracle{})
 	}
@@ -574,6 +575,19 @@ func exploreC13Invariance(t *testing.T, seed uint64, idx int, tier string, sink 
 	}
 	pl := c13Plan(r, r.U64(), ra, rb, tgt, prof)
 	pl.Meta["arm"] = "invariance"
+	if r.Chance(1, 3) {
+		// the issuing CA itself is under a profile with subject rules and has a subject of several
+		// attributes: whatever validation does to a subject it has looked at, and however often it
+		// looks (once per entity, once per subscriber, once per run), the CA's hash may not move
+		caProf := &ProfileSpec{Name: "ca-rules", File: "ca-rules-profile", Ext: "yaml", AllowOther: bp(true)}
+		for _, a := range []string{"C", "O", "OU", "CN"} {
+			caProf.Attrs = append(caProf.Attrs, AttrSpec{Attr: a, Optional: bp(true)})
+		}
+		ra.Subject = []RDN{{"C", "DE"}, {"O", "Org A"}, {"CN", "Root A"}}
+		ra.Profile = caProf.Name
+		pl.Ops = append([]Op{{ID: 5, K: "put-prof", Prof: caProf}}, pl.Ops...)
+		pl.Meta["ca-subject-rules"] = "1"
+	}
 	if r.Chance(1, 4) {
 		pl.Meta["debuglog"] = "1" // the generating run was started with -d
 	}
